@@ -19,6 +19,9 @@ RULE = ('a generated signature (0-3 positional-or-keyword parameters with traili
         'inspect.signature(cls.__init__) must describe the same arguments. Non-trivial: the signature has *rest, keyword-only '
         'parameters or defaults, and the pattern binds in >=2 stages or is an error pattern')
 ASSUMPTIONS = [
+    'the name of the variadic positional parameter is used as a keyword only at construction of wrapped classes whose __init__ has '
+    'no **kw (Python: TypeError); functors and pg.Object classes give that name a meaning of their own (binding *args by name), and '
+    'with **kw present a wrapped class takes `rest=...` as the variadic binding where Python puts it into **kw - observed, not claimed',
     'effective arguments: construction-time arguments, updated by late binding steps in order, updated by call-time arguments; a '
     'call-time value for an already specified argument is an error unless override_args is set (the documented rule), modelled as '
     'the TypeError the interpreter raises for a doubly supplied argument',
@@ -364,7 +367,12 @@ def execute(case):
       raise core.InvalidCase(case)
     for kv in part.get('kwargs', []):
       if not (isinstance(kv, list) and len(kv) == 2 and isinstance(kv[0], str) and kv[0].isidentifier()
-              and kv[0] not in (VARARGS, VARKW, 'self', 'override_args', 'ignore_extra_args', 'root_path', 'allow_partial', 'sealed')):
+              and kv[0] not in (VARKW, 'self', 'override_args', 'ignore_extra_args', 'root_path', 'allow_partial', 'sealed')):
+        raise core.InvalidCase(case)
+      if kv[0] == VARARGS and (part is call or case.get('kind') in ('functor', 'symbolize_fn', 'object_cls')
+                               or (case.get('sig') or {}).get('varkw')):
+        # (binding the variadic positionals by name is an extension of functors and of pg.Object classes; for a
+        # wrapped class without **kw the name of *rest is not a keyword the class takes, and Python says so)
         raise core.InvalidCase(case)
     if len({kv[0] for kv in part.get('kwargs', [])}) != len(part.get('kwargs', [])):
       raise core.InvalidCase(case)
@@ -727,6 +735,7 @@ def _shapes():
 
 def _patterns(tier):
   inits = [([], []), ([1], []), ([1, 2], []), ([1, 2, 3], []), ([], [['a', 1]]), ([1], [['k1', 4]]), ([1], [['a', 2]]),
+           ([1], [['rest', [7, 8]]]), ([1, 5], [['rest', [7]]]),
            ([], [['e', 5]]), ([], [['b', 2], ['k1', 4]]), ([[1, 2]], [['b', {'$d': [['x', 1]]}]])]
   lates = [[], [{'how': 'rebind', 'name': 'a', 'v': 7}], [{'how': 'del', 'name': 'b', 'v': None}],
            [{'how': 'setattr', 'name': 'k1', 'v': 8}], [{'how': 'batch', 'items': [['a[0]', 9], ['k1', 6]]}],
@@ -747,6 +756,8 @@ def _exh(tier):
       for kind in kinds:
         if kind not in ('functor',) and (ca or ck) and kind != 'symbolize_fn':
           continue     # classes are not called
+        if any(k == VARARGS for k, _ in ik) and (kind not in ('symbolize_cls', 'wrap_cls') or sig['varkw']):
+          continue     # (the name of *rest as a keyword: wrapped classes only, see execute)
         for ov in (('none', 'call') if kind == 'functor' else ('none',)):
           yield {'sig': sig, 'kind': kind, 'init': {'args': ia, 'kwargs': ik}, 'late': late,
                  'call': {'args': ca, 'kwargs': ck}, 'ov': ov, 'ignore': False, 'after': 'none'}
